@@ -72,6 +72,8 @@ impl<'s> ParseState<'s> {
         &&& old.idx@ <= j <= old.src().len()
         &&& self.line as int == adv_line(old.line as int, old.src().subrange(old.idx@, j))
         &&& self.utf16_col as int == adv_col(old.utf16_col as int, old.src().subrange(old.idx@, j))
+        // (consequence of the two lines above by lemma_adv_monotone, stated for convenience) positions never go backwards
+        &&& pos_le(old.pos(), self.pos())
     }
 
     #[verifier::external_body]
